@@ -76,3 +76,13 @@ package client
 //@   trusted
 //@   noeffect
 //@   ensures r == is_suspended(c, id)
+
+// The live-status probe over the DAG's unix socket.
+//@ ghost obs.cur_err error
+//@ ghost obs.cur *model.Status
+//@ fn (Client).GetCurrentStatus(c, workflow) (st, err)
+//@   props C08 C16
+//@   trusted
+//@   modifies heap(alloc), ghost obs.cur_err, ghost obs.cur
+//@   ensures obs.cur_err == err && obs.cur == st
+//@   ensures err == nil ==> st != nil
